@@ -1239,11 +1239,11 @@ Fixpoint svcb_params_loop (fuel : nat) (st : tstate) (params : list (Z * pval)) 
         match split_once 61 v with
         | None => do ps <- svcb_define params v None; svcb_params_loop f st1 ps
         | Some (key, rest) =>
-            if is_nil key then Internal iValueError                    (* "=key" *)
-            else if is_nil rest then                                   (* "key=" + quoted string *)
+            if is_nil rest then                    (* the first "=" is the last character: "key=" + quoted string *)
               do qs <- get st1 true false;
               if negb (is_quoted (fst qs)) then Internal iValueError
               else do ps <- svcb_define params key (Some (tvalue (fst qs))); svcb_params_loop f (snd qs) ps
+            else if is_nil key then Internal iValueError               (* "=value" *)
             else do ps <- svcb_define params key (Some rest); svcb_params_loop f st1 ps
         end
   end.
